@@ -65,6 +65,10 @@ def generate(tier, rng):
         header = rng.random() < 0.5
         cases.append({"op": "listing", "rows": rows, "header": header, "ncol": ncol, "subst": rng.choice([None, None, 0, 0.0, -1.5]),
                       "dist": rows, "scale": ["int", 0]})
+    # a listing as long as a real recording's (tens of thousands of fixed-width rows, more than a megabyte of text)
+    for _ in range(1 if tier == "quick" else 8):
+        cases.append({"op": "biglisting", "nrows": rng.randint(33000, 45000), "wide": rng.random() < 0.3, "header": rng.random() < 0.3,
+                      "dist": [1], "scale": ["int", 0]})
     for _ in range(500 if tier == "quick" else 15000):
         n = rng.randint(0, 15)
         kind = rng.choice(["float", "int", "pitch", "const", "offset"])
@@ -118,10 +122,36 @@ def run(case):
         return core.run_guarded(g)
     if op == "detect":
         def h():
-            pl = [(float(i), float(v)) for i, v in enumerate(case["dist"])]
+            # rows as extractPI / loadTimeSeriesData return them: (time, pitch) or (time, pitch, intensity, ...), tuples or lists
+            k = len(case["dist"]) % 3
+            pl = [(float(i), float(v)) + (60.0, 1.0)[:k] for i, v in enumerate(case["dist"])]
+            if sum(case["dist"]) % 2:
+                pl = [list(r) for r in pl]
             errs, _ = pi.detectPitchErrors(pl, case["tn"] / case["td"], None)
             return {"idx": [int(e.time) for e in errs], "labels": [e.label for e in errs]}
         return core.run_guarded(h)
+    if op == "biglisting":
+        d = os.path.join(core.VERIF, ".work", "c20b.%d" % os.getpid())
+        os.makedirs(d, exist_ok=True)
+        fn = core.fname(os.path.join(d, "big.txt"))
+        try:
+            def bq():
+                fmt = "%012.5f,%09.4f,%08.3f\n" if not case["wide"] else "%012.5f,%09.4f,%08.3f,%014.7f,%016.9f\n"
+                rows = [(k * 0.005, 100.0 + (k * 37 % 1000) / 8.0, 60.0 + (k % 64) / 4.0, k / 7.0, k / 3.0)[:5 if case["wide"] else 3]
+                        for k in range(case["nrows"])]
+                with open(fn, "w", encoding="utf-8") as fh:
+                    if case["header"]:
+                        fh.write("time,pitch,intensity" + (",a,b" if case["wide"] else "") + "\n")
+                    fh.write("".join(fmt % r for r in rows))
+                out = pi.loadTimeSeriesData(fn, None)
+                want = [tuple(float(x) for x in (fmt % r).strip().split(",")) for r in rows]
+                if len(out) != len(want):
+                    return {"rows": len(out), "want": len(want), "first_bad": None}
+                bad = next((k for k, (a, b) in enumerate(zip(out, want)) if tuple(float(x) for x in a) != b), None)
+                return {"rows": len(out), "want": len(want), "first_bad": bad}
+            return core.run_guarded(bq)
+        finally:
+            shutil.rmtree(d, ignore_errors=True)
     if op == "listing":
         d = os.path.join(core.VERIF, ".work", "c20.%d" % os.getpid())
         os.makedirs(d, exist_ok=True)
@@ -258,6 +288,15 @@ def py_checks(case, r):
             if 1 <= k < len(p) and not _close(float(lab), p[k] / p[k - 1]):
                 probs.append("label %r at %d is not the ratio %r" % (lab, k, p[k] / p[k - 1]))
         return probs
+    if op == "biglisting":
+        if "ok" not in r:
+            return ["loadTimeSeriesData on a %d-row listing raised %s" % (case["nrows"], r.get("exc", r))]
+        v = r["ok"]
+        if v["rows"] != v["want"]:
+            return ["loadTimeSeriesData returned %d rows for a listing of %d" % (v["rows"], v["want"])]
+        if v["first_bad"] is not None:
+            return ["row %d of a %d-row listing came back with other numbers" % (v["first_bad"], v["want"])]
+        return []
     if op == "znwin":
         return _check_znwin(case, r)
     if op == "znspk":
